@@ -16,6 +16,7 @@ def handle (line : String) : Verdict :=
     let mode := (fieldD j "mode").getStr?.toOption.getD ""
     let r : R Verdict :=
       if mode == "ctl" then CtlReplay.replay j
+      else if mode == "ctllong" then CtlReplay.replayLong j
       else if mode == "codec" then CodecReplay.replay j
       else if mode == "ops" then OpsReplay.replay j
       else if mode == "spec" then SpecReplay.replay j
